@@ -225,3 +225,13 @@ Example C06_ex_agree :
   seen_rest [(routing_key, "mine")] (Some "name=a") = ["name=a"].
 Proof. vm_compute. repeat split; reflexivity. Qed.
 Print Assumptions C06_ex_agree.
+
+(* ---- the alternative (Ads) templates expand the same macro (since eec5aba): on the former witnesses the Ads client
+   sends what the standard client sends -- the explicit rule, nothing for an empty annotation, the implicit pair otherwise ---- *)
+Example C06_ads_agrees_on_witnesses :
+  header_of_ads ads_m ads_req = Ok (Some "routing_id=projects/p1") /\
+  header_of_ads {| m_explicit := Some []; m_http := ads_http; m_client_streaming := false |} ads_req = Ok None /\
+  header_of_ads {| m_explicit := None; m_http := ads_http; m_client_streaming := false |} ads_req = Ok (Some "name=shelves/s1") /\
+  emit_ads ads_m = emit_sync ads_m.
+Proof. exact ads_witnesses_l. Qed.
+Print Assumptions C06_ads_agrees_on_witnesses.
